@@ -483,6 +483,16 @@ func checkC05(p *core.Program, r *core.Report) {
 	const R11 = "C05.R11 visible-peer-keeps-its-addresses"
 	r.Rule(R11, "the mDNS layer drops only IPv6 link-local addresses from a resolved entry and merges the rest (shared with C17.R2): a paired, visible peer whose only addresses were filtered out is dialled at its .local host name alone, which most resolvers cannot resolve - both hubs stay at zero connections")
 	importRules(p, r, "C17", map[string]string{"C17.R2 address-hygiene": R11}, nil)
+	// R13: only the user clears a registration
+	const R13 = "C05.R13 registration-survives-faults"
+	r.Rule(R13, "the trusted flag is cleared only by UnregisterRemoteSKI / CancelPairingWithSKI and set only by registration or hello-ok (shared with C01.R4): a transport fault or peer restart while one side waits for the other's trust must not unregister the peer")
+	importRules(p, r, "C01", map[string]string{"C01.R4 hub-trust-writers": R13}, nil)
+	// R12: a report of the peer's mDNS entry never replaces the peer's registration
+	const R12 = "C05.R12 registration-survives-any-spelling"
+	r.Rule(R12, "every access to the per-SKI service record uses the normalised SKI (shared with C15.R1): ReportMdnsEntries passes the SKI as the peer announces it, so a lookup under the raw spelling misses the trusted record and the fresh one stored under the canonical key replaces it - a peer that announces its SKI in upper case loses its registration with every report")
+	importRules(p, r, "C15", map[string]string{"C15.R1 normalise-before-use": R12}, func(key string) bool {
+		return strings.Contains(key, "remoteServices") || !strings.Contains(key, " -> ")
+	})
 }
 
 // checkKeepRule discovers the double-connection decision function and
